@@ -33,10 +33,12 @@ MANIFEST = {
             "elements and metadata attributes, values, order - for side tables in which a prefix stands for one namespace "
             "(C12_xml_doc_prefix_clash_refuted: without it libyang writes a duplicate xmlns:prefix, finding xml-meta-prefix-clash) "
             "and metadata keys distinct per node (C12_xml_doc_dup_meta_refuted); several top-level nodes are well-formed content, "
-            "not a document (C12_xml_doc_std_siblings_refuted). C12_json_doc_std_partial: an RFC 8259 reader (grammar of sections "
-            "2-7 + StdText strings) applied to json_doc (rendering of the RFC 7951 value) recovers that value (qualifiers, "
-            "arrays, string / literal classes, [null], RFC 7952 metadata objects); that printer_json.c's state machine prints "
-            "json_doc is checked by T2 on every case (explicit / report-all), and refuted for trim mode "
+            "not a document (C12_xml_doc_std_siblings_refuted). C12_json_doc_std: an RFC 8259 reader (grammar of sections "
+            "2-7 + StdText strings) applied to json_print_all (the transcription of printer_json.c with its state, every node "
+            "selected) recovers the RFC 7951 value of the forest (qualifiers, arrays, string / literal classes, [null], RFC 7952 "
+            "metadata objects), through C01_json_print_is_rfc7951 (the state machine prints the RFC 7951 rendering); for other "
+            "selections: the rendering of the selected part is valid and means it (C12_json_rendering_std), that libyang prints "
+            "it is checked by T2 on every case in explicit mode and refuted for trim mode "
             "(C12_json_trim_refuted = finding json-trim-leaflist-meta: not JSON). Tie as for C01 (byte-identical output, the "
             "standard readers of the Coq development run on libyang's bytes). WellFormedX: expat / json on libyang's output for "
             "opaque nodes, anydata / anyxml and operations.",
